@@ -6,6 +6,8 @@ mod util;
 
 mod c01;
 mod c02;
+mod c19;
+mod prog;
 
 use serde_json::json;
 use std::sync::Arc;
@@ -99,6 +101,8 @@ fn main() {
     match family.as_str() {
         "c01" => c01::run(&ctx),
         "c02" => c02::run(&ctx),
+        "c19" => c19::run(&ctx),
+        "c19dump" => c19::dump(&ctx),
         _ => {
             eprintln!("unknown family {}", family);
             std::process::exit(2);
